@@ -135,6 +135,15 @@ func genC01base(t *rapid.T) C01Case {
 			}
 			big.P = uint(len(big.D))
 			gap := rapid.SampledFrom([]int{4096, 32767, 32768, 65535, 65536, 65537, 70000, 131072, 140000}).Draw(t, "far.gap") + rapid.IntRange(-3, 3).Draw(t, "far.goff")
+			if h.Rare(t, "far.very", 25) {
+				// tens of millions of digits apart (tens of megabytes per operation in the library): a few dozen per
+				// run, concentrated on the sharpest case (a power of ten minus epsilon at precisions just short of a word)
+				gap = rapid.SampledFrom([]int{1 << 20, 1 << 24, 1<<26 - 1, 1 << 26, 1<<26 + 1, 1 << 27}).Draw(t, "far.vgap")
+				if rapid.IntRange(0, 2).Draw(t, "far.vsharp") > 0 {
+					big.D, big.P = "1", 1
+					p = rapid.SampledFrom([]int{18, 37, 56, 19, 38, 1}).Draw(t, "far.vp")
+				}
+			}
 			small := h.Spec{F: "f", D: h.GenDigits(t, "far.s", 8), E: big.E - int64(gap), Neg: rapid.Bool().Draw(t, "far.sneg"), M: h.GenMode(t, "far.sm")}
 			small.P = uint(len(small.D))
 			c.P = uint(p)
@@ -492,7 +501,7 @@ func checkC01(c C01Case, o *h.Obs) *h.Fail {
 	return nil
 }
 
-const ruleC01 = "rapid-generated (op, operands, receiver precision, mode) for add/sub/mul/quo/set/setprec/neg/abs: operands from word-patterned digit generators (0, 10^19-1, 5*10^18, 10^k, 10^k-1 words, uniform filler), result-directed constructions (chosen exact sum split into addends; x=q*y(+r) with q carrying a tie / all-nines / just-above / just-below pattern at the precision), near-total cancellation, exponents at both ends of the int32 range, zero addends, an addend 4096 .. 140000 digits below the other, dividends of 19500-24000 digits against short divisors, receivers aliased to an operand; oracle = math/big exact result rounded once by the reference Round (range rule included), compared on sign, digits, exponent read back through BitsExp; operands that are not the receiver must be unchanged. Non-trivial = the model result is inexact or left the finite range (rounding, overflow, underflow happened); distinct = distinct case encodings. Bounds: exponent gap of sums <= 600 (quick) / 6000 (thorough) digits, Quo precision <= 2000 / 40000, operands <= 2500 / 20000 digits."
+const ruleC01 = "rapid-generated (op, operands, receiver precision, mode) for add/sub/mul/quo/set/setprec/neg/abs: operands from word-patterned digit generators (0, 10^19-1, 5*10^18, 10^k, 10^k-1 words, uniform filler), result-directed constructions (chosen exact sum split into addends; x=q*y(+r) with q carrying a tie / all-nines / just-above / just-below pattern at the precision), near-total cancellation, exponents at both ends of the int32 range, zero addends, an addend 4096 .. 140000 digits below the other (a few per run: 2^20 .. 2^27 digits below), dividends of 19500-24000 digits against short divisors, receivers aliased to an operand; oracle = math/big exact result rounded once by the reference Round (range rule included), compared on sign, digits, exponent read back through BitsExp; operands that are not the receiver must be unchanged. Non-trivial = the model result is inexact or left the finite range (rounding, overflow, underflow happened); distinct = distinct case encodings. Bounds: exponent gap of sums <= 600 (quick) / 6000 (thorough) digits, Quo precision <= 2000 / 40000, operands <= 2500 / 20000 digits."
 
 var propC01 = &h.Prop[C01Case]{ID: "C01", Rule: ruleC01, Gen: genC01, Check: checkC01, Matchers: map[string]func(C01Case) bool{}}
 
